@@ -585,7 +585,11 @@ def rule_coh_grid(ctx: Ctx) -> None:
         ctx.check(good, 'COH-GRID', init, f'{rec}[layer] = the element of {tab} containing {member}, with the handle created for the same ranks', rec,
                   f'self.{rec}[layer] is not set to _Group(ranks=ranks, group=ranks_to_communication_group[ranks]) for the element of {tab} that contains {member}', sts[0] if sts else init.node)
     iw = assigned('inv_worker')
-    ctx.check(iw is not None and 'self._inv_assignments[layer]' in norm(iw), 'COH-GRID', init, 'the column is selected by an inverse worker of the same layer', 'inv_worker',
+    # the per-layer table may be reached as self._inv_assignments[layer] or as the value variable of
+    # `for layer, v in self._inv_assignments.items()`
+    vals = {norm(lp.target.elts[1]) for lp in nodes if isinstance(lp, ast.For) and isinstance(lp.target, ast.Tuple) and len(lp.target.elts) == 2
+            and norm(lp.target.elts[0]) == 'layer' and norm(lp.iter) == 'self._inv_assignments.items()'}
+    ctx.check(iw is not None and ('self._inv_assignments[layer]' in norm(iw) or any(re.search(rf'\b{re.escape(v)}\b', norm(iw)) for v in vals)), 'COH-GRID', init, 'the column is selected by an inverse worker of the same layer', 'inv_worker',
               f'inv_worker is {norm(iw) if iw is not None else None}', iw or init.node)
     # group handles created for every row and column under the ranks they are looked up by
     okh = False
